@@ -15,7 +15,8 @@ class SimRec:
         self.digests = []
         self.faults = {"F1_reorder_choices": 0, "F2_stalls": 0, "F3_spec_copies": 0,
                        "F3_input_copies": 0, "F3_output_copies": 0, "F3_transfers": 0,
-                       "F3_same_worker_shares": 0, "F9_thread_preemptions": 0}
+                       "F3_same_worker_shares": 0, "F9_thread_preemptions": 0,
+                       "F10_injected_task_failures": 0}
         self.tasks = 0
         self.gets = 0
         self.nontrivial = 0
@@ -44,6 +45,7 @@ class SimRec:
             self.faults["F3_transfers"] += st["transfers"]
             self.faults["F3_same_worker_shares"] += st["same_worker_shares"]
             self.faults["F9_thread_preemptions"] += st["preemptions"]
+            self.faults["F10_injected_task_failures"] += st["injected_task_failures"]
             self.tasks += st["tasks"]
             self.gets += st["gets"]
             self.nontrivial += sim.choices.nontrivial
